@@ -138,7 +138,15 @@ def _tl_case(draw):
         else:
             terms.insert(draw(st.integers(0, len(terms))), neg)
         planted.append("infeasible")
-    return {"kind": "tl", "terms": terms[:7], "ctx": ctx, "planted": planted, "numclass": numclass}
+    case = {"kind": "tl", "terms": terms[:7], "ctx": ctx, "planted": planted, "numclass": numclass}
+    if numclass == "small" and draw(st.integers(0, 11)) == 0:
+        # a satisfied constraint without variables (0 <= c), as left behind by eliminations / renamings that cancel every variable
+        tgt = case["terms"] if (ctx is None or draw(st.booleans())) else case["ctx"]
+        tgt.insert(draw(st.integers(0, len(tgt))), [{}, float(draw(st.sampled_from([0, 0, 1, 2])))])
+        case["planted"] = planted + ["varfree-satisfied"]
+    if draw(st.integers(0, 3)) == 0:
+        case["prime"] = draw(st.sampled_from(["relax", "refine", "simplify"]))
+    return case
 
 
 @st.composite
@@ -226,6 +234,21 @@ def run_case(case):
         terms, ctx = case["terms"], case["ctx"]
         tl = env.TL(terms)
         ctl = env.TL(ctx) if ctx is not None else None
+        if case.get("prime"):
+            # earlier calls on equal lists in an equal context (whose results are then modified) must not influence this one
+            names = sorted({n for t in terms for n in t[0]})
+            if names:
+                p1, pc = env.TL(terms), (env.TL(ctx) if ctx is not None else env.TL([]))
+                ev = [env.Var(names[0])]
+                if case["prime"] == "simplify":
+                    st0, r0 = env.call("simplify", p1.simplify, pc) if ctx is not None else env.call("simplify", p1.simplify)
+                else:
+                    fn = p1.elim_vars_by_relaxing if case["prime"] == "relax" else p1.elim_vars_by_refining
+                    st0, r0 = env.call("elim", fn, pc, ev, True, None)
+                    r0 = r0[0] if st0 == "ok" else r0
+                if st0 == "ok":
+                    del r0.terms[:]       # what a caller may do with a result it owns
+                labels.append("primed:" + case["prime"])
         status, res = env.call("simplify", tl.simplify, ctl) if ctl is not None else env.call("simplify", tl.simplify)
         allc = terms + (ctx or [])
         if status == "refused":
